@@ -131,7 +131,7 @@ func genNumber(t *rapid.T, st *valStats) interface{} {
 		return float64(rapid.SampledFrom([]int64{0, 1, -1, 255, 256, 65535, 1 << 31, -(1 << 31), 1<<31 - 1, 1 << 32, 1<<53 - 1, -(1<<53 - 1), 1e15, 1234567890123}).Draw(t, "edge-int"))
 	case 5:
 		st.ints++
-		return float64(rapid.Int64Range(-(1<<53 - 1), 1<<53-1).Draw(t, "int53"))
+		return float64(rapid.Int64Range(-(1<<53-1), 1<<53-1).Draw(t, "int53"))
 	case 6, 7:
 		st.floats++
 		return rapid.SampledFrom([]float64{0.5, -0.5, 1.25, 3.141592653589793, 1e-7, 1e21, -1e21, 1.7976931348623157e308, 5e-324, 0.1, 2.5e10, 99.99}).Draw(t, "edge-float")
@@ -170,7 +170,7 @@ func genValue(t *rapid.T, depth, maxDepth int, inMap bool, st *valStats) interfa
 		return rapid.SampledFrom(rtStrings).Draw(t, "str")
 	case 8, 9:
 		st.containers++
-		n := rapid.IntRange(0, 4).Draw(t, "list-len")
+		n := uniform(t, "list-len", 5)
 		out := make([]interface{}, 0, n)
 		for i := 0; i < n; i++ {
 			out = append(out, genValue(t, depth+1, maxDepth, false, st))
@@ -186,7 +186,7 @@ func genValue(t *rapid.T, depth, maxDepth int, inMap bool, st *valStats) interfa
 
 func genMap(t *rapid.T, depth, maxDepth int, st *valStats) map[string]interface{} {
 	st.containers++
-	n := rapid.IntRange(0, 4).Draw(t, "map-len")
+	n := uniform(t, "map-len", 5)
 	out := map[string]interface{}{}
 	for i := 0; i < n; i++ {
 		k := rapid.SampledFrom(rtKeys).Draw(t, "key")
